@@ -358,6 +358,13 @@ def choose_bool(name):
   return bool(fresh_bool(name))
 
 
+def hdecide(c):
+  """harness-level decision (shard point); in concrete mode a plain bool()"""
+  E = _E()
+  if E.mode == 'concrete' or isinstance(c, bool): return bool(c)
+  return E.hdecide(lift_bool(c))
+
+
 def assume(c): _E().assume(c)
 def check(name, c): _E().check(name, c)
 def cover(label): _E().cover(label)
